@@ -135,6 +135,8 @@ def c04():
               drives=["from_bytes"], bound="shape %s: every buffer of the documented layout (structure concrete, payload symbolic)" % sh)
     p.add("h_ser::ser_framing_decode", quick=True, timeout=900, drives=["Program::from_bytes"],
           bound="framing decode: two integer constants (all values, equal or not), two globals, entry")
+    p.add("h_ser::ser_length_prefix_widths", quick=True, timeout=600, drives=["write_usize_as_u16", "write_usize_as_u32"],
+          bound="every count <= 65535 and every length <= 2^32 - 1")
     p.add("h_ser::ser_opcode_reject", quick=True, timeout=600, allow=["Cannot deserialize opcode: unknown tag"],
           bound="opcode numbers 0x11-0xff: rejected (the reader's rejection is a panic)")
     p.add("h_ser::ser_utf8_predicate_exact", quick=False, timeout=900, bound="harness-side UTF-8 predicate = std::str::from_utf8 on all inputs of 0-4 bytes")
@@ -357,7 +359,7 @@ def c16():
     for h, q in (("array", True), ("literal", True), ("get_local", False), ("set_local", False), ("get_global", False), ("set_global", False),
                  ("branch", False), ("get_field", True)):
         p.add("h_vm::vm_" + h, quick=q, timeout=900, bound="heap length after the step: +1 exactly for a successful array creation, unchanged otherwise; any --heap-size")
-    for h in ("array0", "array2", "object"):
+    for h in ("array0", "array2", "object", "twice_empty", "twice_mixed"):
         p.add("h_heap::heap_allocate_" + h, quick=True, timeout=900, drives=["Heap::allocate", "HeapObject::size"],
               bound="allocate returns the old length, appends one cell, adds exactly size() > 0, size depends on shape only")
     p.functions = VM_FUNCS + ["heap::Heap::{allocate,set_size,verif_size (hook)}", "heap::HeapObject::size"]
